@@ -53,6 +53,10 @@ def is_primitive(e: Engine, n: Node):
     if name in tables.BLOCKING_PRIMITIVES and \
             isinstance(n.ast.func, ast.Attribute):
         return name, tables.BLOCKING_PRIMITIVES[name]
+    key = (n.frame.ctx.func.module.name, name)
+    if key in tables.BLOCKING_PRIMITIVES_IN and \
+            isinstance(n.ast.func, ast.Attribute):
+        return name, tables.BLOCKING_PRIMITIVES_IN[key]
     for x in res.externals:
         if x.endswith('create_connection'):
             return 'connect', 'TCP connect blocks until the peer answers'
